@@ -897,6 +897,14 @@ class H2Stream:
             if self.state_machine.trailers_sent and not end_stream:
                 raise ProtocolError("Trailers must have END_STREAM set.")
 
+            # What is remembered about the request is read from the block
+            # before it is encoded as well: a malformed field makes these
+            # scans raise, and then nothing must have been encoded yet.
+            authority = None
+            if self.state_machine.client and self._authority is None:
+                authority = authority_from_headers(headers)
+            method = extract_method_header(headers)
+
             hf = HeadersFrame(self.stream_id)
             hdr_validation_flags = self._build_hdr_validation_flags(events)
             frames = self._build_headers_frames(
@@ -918,11 +926,10 @@ class H2Stream:
             frames[0].flags.add('END_STREAM')
 
         if self.state_machine.client and self._authority is None:
-            self._authority = authority_from_headers(headers)
+            self._authority = authority
 
         # store request method for _initialize_content_length. Trailers do
         # not carry a method and must not make us forget the request's.
-        method = extract_method_header(headers)
         if method is not None:
             self.request_method = method
 
